@@ -1,8 +1,8 @@
-(* C05 — testbench reads and writes agree with what a circuit would compute (read half here;
-   the write half is added with the assignment model).  Statements only. *)
+(* C05 — testbench reads and writes agree with what a circuit would compute.  Statements only;
+   proofs in Proofs/ExprP.v (reads) and Proofs/StmtP.v (writes). *)
 From Coq Require Import ZArith List Bool.
-From V.Model Require Import Bits Shape Ast Denote PyRTL PyEval.
-From V.Proofs Require Import BitsP ShapeP ExprP.
+From V.Model Require Import Bits Shape Ast Denote PyRTL PyEval Stmt.
+From V.Proofs Require Import BitsP ShapeP ExprP StmtP.
 Import ListNotations.
 Open Scope Z_scope.
 
@@ -28,4 +28,50 @@ Example C05_example :
              [(Some [[]], EPart (ESig 0 (Sh 4 true)) (EConst 6 (Sh 3 false)) 3 1); (None, EConst 1 (Sh 1 false))] in
   let en : env := fun i => match i with O => -3 | _ => 0 end in
   wf_expr e = true /\ eval_tb en e = 7 /\ norm (shape_of e) (eval_rtl en e) = 7.
+Proof. vm_compute. repeat split. Qed.
+
+(* ---------------- writes ---------------- *)
+(* ctx.set(target, v) — the window algorithm of _eval_assign_inner — changes, for any nesting of slices,
+   part-selects (offsets beyond the target included), concatenations, choices/array elements and sign
+   reinterpretations, exactly the bits the target addresses (wr = Some k), bit k of v going to the bit
+   addressed by position k; everything else keeps its value.  v is any integer (negative, wider than the target). *)
+Theorem C05_tb_set_bits ss curr lhs : wf_lhs lhs = true -> lin lhs = true -> sig_ok ss lhs -> sel_ok curr lhs ->
+  forall v nx i b, 0 <= b < width (ss i) ->
+  Z.testbit (tb_set curr lhs v nx i) b =
+  match wr curr lhs i b with Some k => Z.testbit v k | None => Z.testbit (nx i) b end.
+Proof. exact (tb_set_bits ss curr lhs). Qed.
+Print Assumptions C05_tb_set_bits.
+
+(* general window form (every recursive call of _eval_assign_inner) *)
+Theorem C05_assign_tb_bits ss curr lhs : wf_lhs lhs = true -> lin lhs = true -> sig_ok ss lhs -> sel_ok curr lhs ->
+  forall start rhs len nx i b, 0 <= start -> 0 <= len -> 0 <= b < width (ss i) ->
+  Z.testbit (assign_tb curr lhs start rhs len nx i) b =
+  match wr curr lhs i b with
+  | Some k => if in_window start len k then Z.testbit rhs (k - start) else Z.testbit (nx i) b
+  | None => Z.testbit (nx i) b
+  end.
+Proof. exact (assign_tb_bits ss curr lhs). Qed.
+Print Assumptions C05_assign_tb_bits.
+
+(* the same write performed by a circuit assignment statement (read-modify-write code of _pyrtl) gives the
+   same value of every signal: "changes exactly the bits that the equivalent assignment statement changes,
+   to the same values, leaving all other bits untouched" *)
+Theorem C05_tb_write_equals_circuit ss curr lhs : (forall i, wf_shape (ss i) = true) ->
+  wf_lhs lhs = true -> lin lhs = true -> sig_ok ss lhs -> sel_ok curr lhs ->
+  forall v nx, normalised ss nx -> forall i, tb_set curr lhs v nx i = assign_rtl curr lhs v nx i.
+Proof. exact (tb_write_equals_circuit ss curr lhs). Qed.
+Print Assumptions C05_tb_write_equals_circuit.
+
+Theorem C05_write_keeps_normalised ss curr lhs : (forall i, wf_shape (ss i) = true) -> sig_ok ss lhs ->
+  forall v nx, normalised ss nx -> normalised ss (tb_set curr lhs v nx).
+Proof. intros Hss Hsig v nx Hn. apply assign_tb_normalised; auto. Qed.
+Print Assumptions C05_write_keeps_normalised.
+
+(* non-vacuity: s[0:4].bit_select(off, 4) <- 0xF with off = 2 on an 8-bit signed signal holding -128:
+   only bits 2..3 change (the F2 defect wrote bits 2..5) *)
+Example C05_write_example :
+  let ss := fun _ : nat => Sh 8 true in
+  let lhs := EPart (ESlice (ESig 0 (Sh 8 true)) 0 4) (ESig 1 (Sh 3 false)) 4 1 in
+  let curr : env := fun i => match i with O => -128 | _ => 2 end in
+  wf_lhs lhs = true /\ lin lhs = true /\ tb_set curr lhs 15 curr 0%nat = -116 /\ assign_rtl curr lhs 15 curr 0%nat = -116.
 Proof. vm_compute. repeat split. Qed.
